@@ -11,6 +11,7 @@ NOT_DECIDED = ("equality of the decoded values with the original, byte-for-byte 
                "serde_json) are value-level statements.")
 
 RULES = {
+    "C01.R6w": lambda ctx: encrules.whole_document(ctx, "C01.R6w"),
     "C01.R5s": lambda ctx: __import__("rules.decoderrules", fromlist=["x"]).section_errors(ctx, "C01.R5s"),
     "C01.RL": lambda ctx: __import__("rules.common", fromlist=["x"]).loop_exit_rule(ctx, "C01.RL", {'decoder::decode_regular': 0, 'decoder::decode_index': 0, 'encoder::serialize_mappings': 1}),
     "C01.R1": lambda ctx: decoderrules.field_coverage(ctx, "C01.R1"),
